@@ -22,6 +22,7 @@ const (
 	opRR = 'D' // release twice
 	opH  = 'H' // hand the release func to a new thread which calls it
 	opTN = 'N' // nested temporary release; after the inner one returned, the outer function takes and returns a token of its own
+	opTp = 'P' // TemporarilyRelease of a function that panics; the panic is recovered above it and the holder works on (not in the enumerated alphabet: used by the listed scripts only)
 	opS  = 'S' // share ctx (holder) with a helper thread; both TemporarilyRelease concurrently (uncounted)
 )
 
@@ -129,6 +130,20 @@ func runScript(s *state, base context.Context, mode int, script string) {
 				s.dec()
 			}
 			concurrencylimiter.TemporarilyRelease(hctx, func() { rt.Yield() })
+			if holding && counted {
+				s.enter()
+			}
+		case opTp:
+			if holding && counted {
+				s.dec()
+			}
+			func() {
+				defer func() { recover() }()
+				concurrencylimiter.TemporarilyRelease(hctx, func() {
+					rt.Yield()
+					panic("the released function fails")
+				})
+			}()
 			if holding && counted {
 				s.enter()
 			}
@@ -326,6 +341,16 @@ func run(rp *explore.Report, tier string) {
 	}
 	// a release handed to another thread that may land anywhere in a temporary release of the holder (its tail
 	// included: the function has returned, the token is being taken back), next to two contenders
+	// a temporarily released function that panics (recovered by the caller, which goes on working before it releases)
+	for _, scr := range [][]string{{"PW", "W"}, {"PW", "W", "W"}, {"PW", "PW", "W"}} {
+		for _, n := range []int{1, 2} {
+			k++
+			if !rp.Mine(k) {
+				continue
+			}
+			rp.Explore(item(n, make([]int, len(scr)), append([]string{}, scr...)))
+		}
+	}
 	for _, s0 := range []string{"Hy", "Hn", "HyW"} {
 		for _, n := range []int{1, 2} {
 			k++
@@ -391,5 +416,5 @@ func run(rp *explore.Report, tier string) {
 
 func init() {
 	reg.Register(&reg.Harness{Property: "C20", Name: "c20/limiter", Level: "model_checking", Bounds: [2]int{3, 4}, Run: run, Item: parseItem,
-		Rule: "items = limiter size (0: nobody is admitted, 1, 2) x context mode of thread 0 x thread scripts over {W,y,n,N,r,R,D,H,S}; every interleaving within the deviation bound is executed on the real concurrencylimiter; non-trivial = executions in which at least one counted holder entered the critical section"})
+		Rule: "items = limiter size (0: nobody is admitted, 1, 2) x context mode of thread 0 x thread scripts over {W,y,n,N,r,R,D,H,S} (plus listed scripts with P: a temporarily released function that panics); every interleaving within the deviation bound is executed on the real concurrencylimiter; non-trivial = executions in which at least one counted holder entered the critical section"})
 }
